@@ -149,7 +149,7 @@ def refute_bugs(ctx: Ctx, bugs):
                               allow_violation=True)
 
     out = {}
-    with cf.ThreadPoolExecutor(max_workers=max(1, min(len(bugs), ctx.workers // 2))) as ex:
+    with cf.ThreadPoolExecutor(max_workers=max(1, min(len(bugs), ctx.workers))) as ex:
         for b, r in ex.map(one, bugs):
             out[b] = r.invariant_violated
             if not r.invariant_violated:
